@@ -705,6 +705,8 @@ fn main() {
          immediately after dispatching) x join awaited by futures_executor or inside a compio runtime x (1 in 12) a proactor configuration that makes every worker \
          panic at start-up. Non-trivial = (>= 2 dispatching threads and >= 2 workers) or join called while accepted tasks were unfinished; distinct = distinct serialised case.",
     );
+    // a process abort (double panic in a Drop, poisoned lock) while a case runs is a verdict about that case
+    p.crash_guard = true;
     p.quick_cases = 900;
     p.thorough_cases = 30000;
     p.replay_repeats = 30;
